@@ -4,3 +4,5 @@ open GoMail.Props.C06
 #print axioms sender_is_envfrom_else_from
 #print axioms bcc_never_rendered
 #print axioms set_bcc_invisible
+#print axioms one_rcpt_per_occurrence
+#print axioms rcpt_lines_are_the_sendable_recipients
